@@ -119,7 +119,77 @@ def kinds_in(e):
     return out
 
 
+def meshseq_case(ctx, rng):
+    """A mixed space over a MeshSequence: sub-function i lives on mesh i and is pushed forward with the cell map of mesh i.
+    Each mesh has a world of its own (same reference point); sub-elements may be EQUAL (the same Piola element on two
+    subdomains).  Expected value: the interpreter's reference value of f, sliced per sub-element, mapped with the textbook
+    formula and the Jacobian of that sub-element's mesh, in numpy."""
+    from ufl.cell import CellSequence
+    from ..seval import CB
+
+    cell, gdim = rng.choice([("triangle", 2), ("triangle", 2), ("tetrahedron", 3), ("interval", 1)])
+    n = rng.choice([2, 2, 3])
+    menu = [lambda: E.P(cell, rng.choice([1, 2])), lambda: E.RT(cell, rng.choice([1, 2])), lambda: E.N1(cell, rng.choice([1, 2])), lambda: E.L2P(cell, 1)]
+    subs = [rng.choice(menu)() for _ in range(n)]
+    if rng.random() < 0.6:
+        subs[rng.randrange(1, n)] = subs[0]  # the same element on two meshes
+    try:
+        meshes = [E.mesh_for(cell, gdim) for _ in range(n)]
+        mixed = E.VMixed(subs)
+        mixed._cell = CellSequence(tuple(s_.cell for s_ in subs))
+        W = ufl.FunctionSpace(ufl.MeshSequence(meshes), mixed)
+        f = ufl.Coefficient(W)
+        out = apply_function_pullbacks(f)
+    except Exception as ex:
+        ctx.count("meshseq_rejected")
+        ctx.covered("rejected_with", "mesh-sequence: " + type(ex).__name__ + ": " + str(ex)[:50])
+        return
+    ctx.count("meshseq_cases")
+    agree = 0
+    for _ in range(3):
+        ws = [oracle.World(rng, cell, gdim, "cell", False) for _ in range(n)]
+        w = ws[0]
+        for k in range(1, n):
+            ws[k].sides["+"].X = w.sides["+"].X.copy()
+        w.mesh = meshes[0]
+        w.others = {meshes[k]: ws[k] for k in range(1, n)}
+        try:
+            got = np.asarray(oracle.S(out, w, strict=False).arr, dtype=complex).ravel()
+            ref = np.asarray(oracle.S(ufl.classes.ReferenceValue(f), w, strict=False).arr, dtype=complex).ravel()
+        except (oracle.Unsupported, oracle.Ambiguous, oracle.StructureMismatch) as ex:
+            ctx.count("meshseq_skipped")
+            ctx.covered("inconclusive_reasons", "mesh-sequence:" + type(ex).__name__ + ":" + str(ex)[:40])
+            continue
+        exp = []
+        off = 0
+        for k, s_ in enumerate(subs):
+            m_ = s_.reference_value_size
+            Fk = ref[off: off + m_]
+            off += m_
+            g_ = ws[k].sides["+"].geo(CB)
+            Jm, K, dJ = (np.asarray(g_(q), dtype=complex) for q in ("Jacobian", "JacobianInverse", "JacobianDeterminant"))
+            kind = s_.vf_kind
+            exp.append(Fk if kind == "identity" else Jm @ Fk / dJ if kind == "contravariant" else K.T @ Fk if kind == "covariant" else Fk / dJ)
+        exp = np.concatenate([np.atleast_1d(v) for v in exp])
+        if got.shape != exp.shape:
+            ctx.violation("C08/mesh-sequence/shape", f"pulled-back value has {got.shape[0]} components, the sub-elements imply {exp.shape[0]}", {"element": repr(mixed)[:300]})
+            return
+        err = float(np.max(np.abs(got - exp))) / max(1.0, float(np.max(np.abs(exp))))
+        if err > 1e-9:
+            eq = len({repr(s_) for s_ in subs}) < n
+            ctx.violation("C08/mesh-sequence/value" + ("/equal-sub-elements" if eq else ""),
+                          f"a sub-function of a mixed space over a MeshSequence is not pushed forward with the cell map of its own mesh (rel. err {err:.3g})",
+                          {"sub_elements": [repr(s_)[:80] for s_ in subs], "output": str(out)[:900]})
+            return
+        agree += 1
+    if agree >= 2:
+        ctx.count("meshseq_held")
+        ctx.add_distinct(("mesh-sequence", tuple(s_.vf_kind for s_ in subs), cell, len({repr(s_) for s_ in subs}) < n))
+
+
 def case(ctx, i, rng):
+    if rng.random() < 0.05:
+        return meshseq_case(ctx, rng)
     cell, gdim = rng.choice(CELLS)
     cplx = rng.random() < 0.3
     el = random_element(rng, cell, gdim, rng.choice([0, 1, 1, 2]))
